@@ -32,6 +32,10 @@ def main():
         if a.only and d.name not in a.only:
             continue
         meta = json.loads((d / 'meta.json').read_text())
+        if meta.get('superseded_by'):
+            # the patch no longer applies to /repo's HEAD; a rebased copy exists
+            results[d.name] = {'superseded_by': meta['superseded_by']}
+            continue
         props = a.props.split(',') if a.props else [meta['property']] + meta.get('also_run', [])
         wt = pathlib.Path('/tmp') / ('seedwt_' + d.name)
         sh(['git', '-C', '/repo', 'worktree', 'remove', '--force', str(wt)])
@@ -63,6 +67,9 @@ def main():
     rpath.write_text(json.dumps(results, indent=1))
     lines = ['| seeded change | property | caught | with failing input | checks |', '|---|---|---|---|---|']
     for k, e in sorted(results.items()):
+        if 'superseded_by' in e:
+            lines.append(f'| {k} | - | superseded by {e["superseded_by"]} | | |')
+            continue
         if 'error' in e:
             lines.append(f'| {k} | ? | error | | {e["error"][:60]} |')
             continue
